@@ -35,7 +35,9 @@ def run(tier, seed):
            "rule": "every state of MCQSim reachable with <= %d qubits; every enabled gate action "
                    "(h,x,y,z, rx/ry/rz at k*pi/2 and k*pi/2-4pi for k=0..7, cx on every ordered pair) is "
                    "executed on a copy of the implementation object of its source state and compared "
-                   "amplitude-by-amplitude with the exact ring state, up to one global phase, tol 1e-9" % meta["maxn"]}
+                   "amplitude-by-amplitude with the exact ring state, up to one global phase, tol 1e-9; every rotation edge is "
+                   "also applied in parts (R(a)R(b) = R(a+b): one part of 1e-7 rad first / last, R(theta+3e-8)R(-3e-8), a sample "
+                   "as 1000 equal parts, a few as 2 000 000 equal parts) and must reach the same exact state" % meta["maxn"]}
     vlib.write_evidence(PID, tier, seed, "model_checking", cov,
                         ["angles restricted to multiples of pi/2 (ring D[omega] is exact there)",
                          "register size <= 3 in this tier", "double arithmetic compared at 1e-9"],
